@@ -886,7 +886,8 @@ func (c *Conn) NextReader() (messageType int, r io.Reader, err error) {
 		}
 
 		if frameType == TextMessage || frameType == BinaryMessage {
-			c.messageReader = &messageReader{c}
+			// an empty message is complete before it is read
+			c.messageReader = &messageReader{c: c, done: c.readRemaining == 0}
 			c.reader = c.messageReader
 			return frameType, c.reader, nil
 		}
@@ -903,13 +904,19 @@ func (c *Conn) NextReader() (messageType int, r io.Reader, err error) {
 	return noFrame, nil, c.readErr
 }
 
-type messageReader struct{ c *Conn }
+type messageReader struct {
+	c *Conn
+	// the message has been delivered completely: it ended cleanly, whatever
+	// happens to the connection afterwards
+	done bool
+}
 
 func (r *messageReader) Read(b []byte) (int, error) {
 	c := r.c
 	if c.messageReader != r {
-		if c.readErr != nil && c.readErr != io.EOF {
-			// the connection has failed: not a clean end of this message
+		if !r.done && c.readErr != nil && c.readErr != io.EOF {
+			// the connection has failed before this message was complete: not
+			// a clean end of this message
 			return 0, c.readErr
 		}
 		return 0, io.EOF
@@ -935,11 +942,15 @@ func (r *messageReader) Read(b []byte) (int, error) {
 			if c.readRemaining > 0 && c.readErr == io.EOF {
 				c.readErr = errUnexpectedEOF
 			}
+			if c.readRemaining == 0 && c.readErr == nil {
+				r.done = true
+			}
 			return n, c.readErr
 		}
 
 		// The frame data of websocket is not fully implemented and ends after receiving it.
 		c.messageReader = nil
+		r.done = true
 		return 0, io.EOF
 	}
 
